@@ -6,13 +6,17 @@ spectrum given over a grid; the reference moves (grid point, spectrum row)
 pairs along the same path in exact rationals with the Jacobian
 |df/dlambda| = f^2/c resp. |df/dn| = c. The arrays handed to a converter
 must be unchanged after the call (the spectrum in its old form stays valid).
+Grid and spectrum are float64 arrays over the POOL frequencies and, in the
+other array representations of c08_reps, whole-number grids (c08_units.WHOLE)
+and a whole-number / single-precision spectrum.
 """
 import itertools
 from fractions import Fraction
 
 import numpy as np
 
-from checks.c08_units import ULP, speed_of_light, exact_edge
+from checks import c08_reps as reps
+from checks.c08_units import WHOLE, speed_of_light, exact_edge
 
 MAX_PATH = 4
 NODES = ("hz", "m", "wn")
@@ -26,6 +30,10 @@ CONVERTER = {
 POOL = (1e8, 2.5e9, 9.99e10, 3e12, 5.5e13, 1e15)      # Hz
 SCALE = 3.5e-12
 TRAILING_SHAPES = ((), (1,), (3,), (2, 2))
+# (grid, spectrum) representations: one argument at a time and both together
+REP_PAIRS = [(g, None) for g in reps.ARRAY_REPS] + \
+    [(None, "int64"), (None, "float32"), ("int64", "int64"),
+     ("float32", "float32")]
 
 
 def exact_step(src, dst, pairs, c):
@@ -67,11 +75,24 @@ def orders(tier):
 
 def shards(tier):
     return [("density", tier, start, n) for start in NODES
-            for n in range(1, 6)]
+            for n in list(range(1, 6)) + ["reps"]]
+
+
+def rep_cases(start):
+    for grep, srep in REP_PAIRS:
+        grid = [v for v in WHOLE[UNIT[start]] if reps.representable(v, grep)]
+        for trail in TRAILING_SHAPES:
+            for path in paths(start):
+                yield dict(part="density", start=start, path=list(path),
+                           grid=grid, shape=[len(grid)] + list(trail),
+                           reps=[grep, srep])
 
 
 def cases(shard):
     _, tier, start, n = shard
+    if n == "reps":
+        yield from rep_cases(start)
+        return
     c = speed_of_light()
     unit = [float(exact_edge("f", UNIT[start], Fraction(f), c))
             if start != "hz" else f for f in POOL]
@@ -84,7 +105,8 @@ def cases(shard):
         for trail in TRAILING_SHAPES:
             for path in paths(start):
                 yield dict(part="density", start=start, path=list(path),
-                           grid=grid, shape=[n] + list(trail))
+                           grid=grid, shape=[n] + list(trail),
+                           reps=[None, None])
 
 
 def ascending(grid):
@@ -100,20 +122,29 @@ def nontrivial(case):
     return len(case["grid"]) >= 2 and reverses(case) >= 1
 
 
-def spectrum(shape):
-    """Positive, all entries distinct, row i identifies grid point i."""
+def spectrum(shape, rep):
+    """Positive, all entries distinct, row i identifies grid point i; whole
+    numbers in an integer representation."""
     idx = np.indices(shape)
     weights = [1.0, 0.25, 0.0625]
-    return SCALE * (1.0 + sum(w * a for w, a in zip(weights, idx)))
+    base = 1.0 + sum(w * a for w, a in zip(weights, idx))
+    scale = 16 if rep == "int64" else SCALE
+    return (scale * base).astype(reps.DTYPES[rep])
 
 
 def check(case):
+    bad, judged = convert(case)
+    return reps.tagged(bad, *case["reps"]), judged
+
+
+def convert(case):
     from typhon.physics import em
     c = speed_of_light()
     shape = tuple(case["shape"])
     n = shape[0]
-    vals = spectrum(shape)
-    grid = np.array(case["grid"], dtype=float)
+    grep, srep = case["reps"]
+    vals = spectrum(shape, srep)
+    grid = reps.array(case["grid"], grep)
     pairs = [(Fraction(g), [Fraction(float(v)) for v in row.ravel()])
              for g, row in zip(case["grid"], vals)]
     src = case["start"]
@@ -145,8 +176,9 @@ def check(case):
     # per edge: <= 3 roundings of the values plus twice the error the grid
     # may carry (4 ulp per earlier edge)  ->  16 * nedge^2 ulp is an upper
     # bound for nedge <= 4
-    tol_grid = 4 * nedge * ULP
-    tol_vals = 16 * nedge * nedge * ULP
+    ulp = Fraction(reps.eps(grep, srep))
+    tol_grid = 4 * nedge * ulp
+    tol_vals = 16 * nedge * nedge * ulp
     pairs.sort(key=lambda p: p[0])
     order = sorted(range(n), key=lambda i: grid[i])
     rows = [[float(v) for v in np.asarray(vals[i], dtype=float).ravel()]
